@@ -197,7 +197,7 @@ def gen_one(rng, *, small=False, region=None):
         "est": est, "merge": merge, "vt": vt, "ot": ot, "ct": ct,
         "mags": [2.0 ** rng.randint(-3, 0) for _ in range(V)],
         "min_success": rng.choice([0, 0, 1]), "pert_min": 1,
-        "fails": fails, "mode": rng.choice(["memo", "memo", "reuse", "fresh"]),
+        "fails": fails, "mode": rng.choice(["memo", "memo", "reuse", "reuse-ro", "fresh"]),
         "vseed": rng.randrange(1 << 20), "garb": "std",
     }
 
@@ -218,7 +218,7 @@ def _grid_cases():
                     "ofil": None, "cfil": None, "est": "mean", "merge": False,
                     "vt": {"scales": [2.0, 0.5], "offsets": [1.0, -1.0]} if (R + P + B) % 2 else None,
                     "ot": [4.0] if P % 2 else None, "ct": [0.5] if R % 2 else None, "mags": [0.5, 0.25],
-                    "min_success": 0, "pert_min": 1, "fails": [], "mode": ("memo", "reuse", "fresh")[(R + B) % 3],
+                    "min_success": 0, "pert_min": 1, "fails": [], "mode": ("memo", "reuse", "fresh", "reuse-ro")[(R + B) % 4],
                     "vseed": 1000 * R + 100 * P + 10 * B + sum(zeros), "garb": "std",
                 }
 
@@ -441,6 +441,7 @@ def _run_once(case, run):
         perts = None if context.perturbations is None else np.array(context.perturbations)
         ao = None if context.active_objectives is None else np.array(context.active_objectives)
         ac = None if context.active_constraints is None else np.array(context.active_constraints)
+        agg = None if context.active is None else np.array(context.active)   # per realization: what a lazy evaluator looks at
         req = {"call": call, "rows": variables.tolist(), "realizations": reals.tolist(),
                "perturbations": None if perts is None else perts.tolist(),
                "ao": _tolist(ao), "ac": _tolist(ac), "active": _tolist(context.active),
@@ -458,12 +459,12 @@ def _run_once(case, run):
                 x = variables[i]
                 for j in range(nobj):
                     o[i, j] = sum(_coef(vseed, j, r, v) * x[v] for v in range(min(V, x.size))) + _const(vseed, j, r)
-                    if ao is not None and not ao[j, r]:
+                    if (ao is not None and not ao[j, r]) or (agg is not None and not agg[r]):
                         o[i, j] = _garbage(run, vseed, call, i, j, big)
                 for j in range(ncon):
                     c[i, j] = sum(_coef(vseed, nobj + j, r, v) * x[v] for v in range(min(V, x.size))) \
                         + _const(vseed, nobj + j, r)
-                    if ac is not None and not ac[j, r]:
+                    if (ac is not None and not ac[j, r]) or (agg is not None and not agg[r]):
                         c[i, j] = _garbage(run, vseed, call, i, nobj + j, big)
                 w = fails.get((call, i))
                 if w is not None:
@@ -472,7 +473,7 @@ def _run_once(case, run):
                     else:
                         o[i, 0] = np.nan
             ids = np.arange(n, dtype=np.int64) + 100 * (len(requests) + 1)
-            if mode == "reuse" and n <= nmax:
+            if mode in ("reuse", "reuse-ro") and n <= nmax:
                 pool["o"][:n] = o
                 pool["id"][:n] = ids
                 bo, bid = pool["o"][:n], pool["id"][:n]
@@ -480,6 +481,14 @@ def _run_once(case, run):
                 if ncon:
                     pool["c"][:n] = c
                     bc = pool["c"][:n]
+                if mode == "reuse-ro":
+                    # the evaluator hands out READ-ONLY views of buffers it keeps overwriting
+                    bo, bid = bo.view(), bid.view()
+                    bo.flags.writeable = False
+                    bid.flags.writeable = False
+                    if bc is not None:
+                        bc = bc.view()
+                        bc.flags.writeable = False
                 if not shared_obj:
                     shared_obj.append(MonResult(objectives=bo, constraints=bc, batch_id=None, evaluation_info={}))
                 obj = shared_obj[0]
@@ -538,6 +547,7 @@ def _run_once(case, run):
 
     ee = EnsembleEvaluator(config, transforms, evaluator, pm)
     delivered = []      # (call index, results tuple, digest)
+    xbases = []         # buffers behind read-only variable vectors handed to calculate()
     calls_obs = []
     cfg_obs = {"weights": config.realizations.weights.tolist(), "mags": config.gradient.perturbation_magnitudes.tolist(),
                "has_filters": bool(case["filters"])}
@@ -555,6 +565,11 @@ def _run_once(case, run):
             x = np.array(case["pts"][arg], dtype=np.float64)
             flags = (True, True) if kind == "FG" else (False, True)
         x_before = x.copy()
+        if (vseed + 2 * k) % 3 == 0:
+            xbase = x.copy()
+            xbases.append(xbase)
+            x = xbase.view()
+            x.flags.writeable = False
         co = {"kind": kind, "outcome": "ok", "results": [], "requests": [], "events": []}
         try:
             res = ee.calculate(x, compute_functions=flags[0], compute_gradients=flags[1])
@@ -596,6 +611,8 @@ def _run_once(case, run):
             b[...] = 777 if b.dtype.kind == "i" else -12345.5
     for arr in pool.values():
         arr[...] = 999 if arr.dtype.kind == "i" else 54321.25
+    for arr in xbases:
+        arr[...] = 4242.5
     for (k0, r0, d0) in delivered:
         d1 = _digest(r0)
         for path in sorted(d0):
@@ -705,6 +722,13 @@ def oracle_run(case, run_obs, other=None):
         ao, ac = flagged(rq["ao"], nobj), flagged(rq["ac"], ncon)
         if len(ao) != nobj or len(ac) != ncon or any(len(r_) != R for r_ in ao + ac):
             return {"clause": "activity-shape", "detail": {"call": k, "ao": rq["ao"], "ac": rq["ac"]}}
+        agg = rq.get("active")
+        for r in range(R):
+            want = any(row[r] for row in ao + ac)
+            got = True if agg is None else bool(agg[r])
+            if got != want:
+                return {"clause": "aggregate_active_flag", "detail": {"call": k, "kind": ek, "realization": r, "active": agg,
+                                                                      "ao": rq["ao"], "ac": rq["ac"]}}
         if ek in ("F", "B"):
             for name, m in (("objectives", ao), ("constraints", ac)):
                 for j, row in enumerate(m):
